@@ -539,6 +539,7 @@ func (f *FuncCtx) callFunc(fn *types.Func, recv *Val, recvExpr ast.Expr, e *ast.
 	}
 	pc, c := f.E.contractFor(fn, f.Pkg)
 	if c != nil && !c.Inline {
+		f.nopanicCallee(fn, short, e, env, c)
 		return f.callContract(fn, c, pc, recv, args, sig, e, env, short)
 	}
 	// `havoc <callee>`: explicitly abstracted by the contract under verification (results unconstrained, no effect)
@@ -583,7 +584,39 @@ func (f *FuncCtx) callFunc(fn *types.Func, recv *Val, recvExpr ast.Expr, e *ast.
 		}
 	}
 	f.note("call abstracted (results unconstrained, no effect on modelled state except pointer-to-scalar arguments): " + short)
+	f.nopanicCallee(fn, short, e, env, nil)
 	return f.resultsOf(sig, fn.Name())
+}
+
+// nopanicCallee: modular no-panic. A function under a `nopanic` contract may only call functions of its own package
+// that are expanded in place (their panics are then its own obligations) or that are under a `nopanic` contract
+// themselves; anything else could panic without this function's obligations noticing.
+func (f *FuncCtx) nopanicCallee(fn *types.Func, short string, e *ast.CallExpr, env *Env, c *FuncContract) {
+	if f.C == nil || !f.C.NoPanic || f.spec != nil || env.dead {
+		return
+	}
+	if fn.Pkg() == nil || fn.Pkg() != f.Pkg.Types {
+		return
+	}
+	decl := f.E.declOf(fn)
+	if decl == nil || decl.Body == nil {
+		return
+	}
+	if c != nil && (c.NoPanic || c.Recovers) {
+		return
+	}
+	for _, k := range []string{short, fn.Name(), exprStr(ast.Unparen(e.Fun))} {
+		if why, ok := f.C.AssumeNoPanic[k]; ok {
+			f.note("assumed not to panic (assume-nopanic): " + short + ": " + why)
+			return
+		}
+	}
+	f.safeOrd["nopanic.callee"]++
+	o := &Obligation{Name: fmt.Sprintf("%s/nopanic.callee.%s#%d", f.key, short, f.safeOrd["nopanic.callee"]), Kind: "nopanic.callee", Fn: f.key, Pkg: f.Pkg.PkgPath,
+		Text: "callee " + short + " must be under a nopanic (or recovers) contract, or small enough to be expanded in place", Src: posStr(f.Pkg.Fset, e.Pos()), Props: f.C.Props}
+	o.Decided = "sat"
+	o.Output = "no-panic rule: " + short + " is declared in this package, is not expanded in place and carries no nopanic contract; a panic inside it would escape this function"
+	f.obls = append(f.obls, o)
 }
 
 func (f *FuncCtx) zeroResults(sig *types.Signature) []Val {
